@@ -28,7 +28,7 @@ FUNCTIONS = [
 BOUNDS = {
     "quick": dict(dead_points_M="1..6", schedules="constant symbolic n>=1 and per-iteration symbolic n_i>=1", modes=["logt", "t"], integer_nlive="1..4",
                   fp_lemmas="L1 w in [-1e6,0], n in [1,1e6]; L2 t in [-1,-1e-9]; L3 all finite doubles"),
-    "thorough": dict(dead_points_M="1..12", schedules="constant symbolic n>=1 and per-iteration symbolic n_i>=1", modes=["logt", "t"], integer_nlive="1..6",
+    "thorough": dict(dead_points_M="1..10", schedules="constant symbolic n>=1 and per-iteration symbolic n_i>=1", modes=["logt", "t"], integer_nlive="1..6",
                      fp_lemmas="L1 w in [-1e6,0], n in [1,1e6]; L2 t in [-1,-1e-9]; L3 all finite doubles"),
 }
 SCOPE = ("Exact real arithmetic with exp/log handled through their algebraic laws (log-semiring); the property's 'to floating-point accuracy' "
@@ -335,7 +335,7 @@ def units(tier):
         shiftM = [3]
         ints = [(3, 1), (4, 2), (5, 4), (3, 3)]
     else:
-        Ms = [1, 2, 3, 4, 6, 8, 10, 12]
+        Ms = [1, 2, 3, 4, 6, 8, 10]
         shiftM = [3, 6]
         ints = [(3, 1), (4, 2), (5, 4), (3, 3), (8, 6), (7, 5), (6, 6)]
     opts = dict(exp_axioms="signs", timeout_ms=60000, fresh=True)
@@ -344,7 +344,7 @@ def units(tier):
             for M in Ms:
                 for z in range(0, min(M, 3)):
                     us.append(Unit(f"state[M={M},{sched},{mode},z={z}]", make_state(M, sched, mode, z), MODS, opts, expect_cover=["end"],
-                                   mutants=["rect", "weights"] if (M, z) == (3, 0) else [], twin_runs=8, witness_every=1, time_budget_s=900))
+                                   mutants=["rect", "weights"] if (M, z) == (3, 0) else [], twin_runs=8, witness_every=1 if tier == "quick" else 16, time_budget_s=900 if tier == "quick" else 3000))
         for M in shiftM:
             us.append(Unit(f"shift[M={M},{mode}]", make_shift(M, mode), MODS, opts, expect_cover=["end"], twin_runs=20, witness_every=4))
         for (M, k) in ints:
